@@ -2,7 +2,7 @@
 
 use super::good_lp::{collect_good_lp_duals, solve_with_good_lp};
 use super::{LpSolution, SolverError, find_invalid_variables};
-use crate::math::VariableType;
+use crate::math::{OptimizationType, VariableType};
 use crate::transformers::LinearModel;
 use ::clarabel::solver::SolverStatus;
 use ::good_lp::SolutionWithDual;
@@ -59,13 +59,18 @@ pub fn solve_real_lp_problem_clarabel(lp: &LinearModel) -> Result<LpSolution<f64
         |solution| {
             // good_lp maps clarabel's (Almost)DualInfeasible status to `Ok`, but for
             // an LP a dual-infeasible problem is a certificate that the primal is
-            // unbounded. Inspect the underlying clarabel status and report it, rather
-            // than returning the meaningless point clarabel hands back.
+            // unbounded *if it has a feasible point at all*: a model can be primal and
+            // dual infeasible at once. Inspect the underlying clarabel status and report
+            // it, rather than returning the meaningless point clarabel hands back.
             if matches!(
                 solution.inner().status,
                 SolverStatus::DualInfeasible | SolverStatus::AlmostDualInfeasible
             ) {
-                return Err(SolverError::Unbounded);
+                return Err(if has_feasible_point(lp) {
+                    SolverError::Unbounded
+                } else {
+                    SolverError::Infeasible
+                });
             }
             Ok(())
         },
@@ -73,5 +78,23 @@ pub fn solve_real_lp_problem_clarabel(lp: &LinearModel) -> Result<LpSolution<f64
             let dual = solution.compute_dual();
             collect_good_lp_duals(dual, references)
         },
+    )
+}
+
+/// Primal feasibility of `lp`, decided by solving it again with a zero objective
+/// (a zero objective cannot be dual infeasible, so this does not recurse further).
+/// Only a proven infeasibility answers `false`.
+fn has_feasible_point(lp: &LinearModel) -> bool {
+    let feasibility = LinearModel::new_from_parts(
+        vec![0.0; lp.variables().len()],
+        OptimizationType::Satisfy,
+        0.0,
+        lp.constraints().clone(),
+        lp.variables().clone(),
+        lp.domain().clone(),
+    );
+    !matches!(
+        solve_real_lp_problem_clarabel(&feasibility),
+        Err(SolverError::Infeasible)
     )
 }
